@@ -417,6 +417,7 @@ func nontrivial(c Case) bool {
 func TestC08(t *testing.T) {
 	defer st.Emit()
 	setup(t)
+	defer slowFail(t)
 	if o := os.Getenv("VERIF_ONLY"); (o == "" || o == "idgen") && (stat.ReplayPath() == "" || strings.Contains(replayCheckName(), "idgen")) {
 		idgenCheck(t)
 	}
